@@ -48,31 +48,39 @@ RANDOM_NS = "0,1,2,3,5,8,16,61,1000"
 
 
 def sweep_jobs(tier, wide=True, rel=True):
-    top = 4 if tier == "quick" else 7
+    top = 5 if tier == "quick" else 7
     j = [J("dbg", "sweep", "--n", ns(0, top), *(["--thorough"] if tier == "thorough" else []))]
     if rel:
-        j.append(J("rel", "sweep", "--n", ns(0, top), *(["--thorough"] if tier == "thorough" else []), count_distinct=False))
+        j.append(J("rel", "sweep", "--n", ns(0, top + 1), *(["--thorough"] if tier == "thorough" else []), count_distinct=False))
     if wide:
         j.append(J("dbg", "sweep", "--n", ns(0, 3 if tier == "quick" else 5), "--elem", "wide", shards=8))
+        j.append(J("rel", "sweep", "--n", ns(0, 4 if tier == "quick" else 6), "--elem", "wide", shards=8, count_distinct=False))
+        # element type without drop glue (mem::needs_drop == false): "plain data" fast paths
+        j.append(J("dbg", "sweep", "--n", ns(0, 4 if tier == "quick" else 6), "--elem", "nodrop"))
+        j.append(J("rel", "sweep", "--n", ns(0, 4 if tier == "quick" else 6), "--elem", "nodrop", count_distinct=False))
     return j
 
 
 def random_jobs(tier, cfgs=("dbg", "rel")):
-    ops = 2500 if tier == "quick" else 120000
+    ops = 6000 if tier == "quick" else 150000
     out = []
     for c in cfgs:
         out.append(J(c, "random", "--n", RANDOM_NS, "--ops", ops, "--emit-distinct", "1", count_distinct=(c == cfgs[0])))
     out.append(J("dbg", "random", "--n", "0,1,2,5,16,61", "--ops", ops // 2, "--elem", "wide", "--emit-distinct", "1", shards=8))
+    out.append(J("rel", "random", "--n", "0,1,3,8,16,61", "--ops", ops // 2, "--elem", "nodrop", "--emit-distinct", "1", shards=8))
     return out
 
 
 def fault_jobs(tier, kinds):
-    top = 4 if tier == "quick" else 6
+    top = 5 if tier == "quick" else 7
     th = ["--thorough"] if tier == "thorough" else []
-    return [
+    j = [
         J("dbg", "faults", "--n", ns(0, top), "--kinds", kinds, *th),
         J("rel", "faults", "--n", ns(0, top), "--kinds", kinds, *th, count_distinct=False),
     ]
+    if kinds == "user":
+        j.append(J("rel", "faults", "--n", ns(0, top - 1), "--kinds", kinds, "--elem", "nodrop", *th, count_distinct=False))
+    return j
 
 
 COMMON_ASSUME = [
@@ -172,7 +180,9 @@ PROPS["C04"] = {
     "jobs": lambda tier: [
         J("dbg", "nonint", "--n", ns(0, 3 if tier == "quick" else 5), *th(tier)),
         J("rel", "nonint", "--n", ns(0, 4 if tier == "quick" else 6), *th(tier), count_distinct=False),
+        J("rel", "nonint", "--n", ns(0, 3 if tier == "quick" else 5), "--elem", "wide", shards=8, count_distinct=False),
         J("dbg", "nonint", "--n", ns(0, 2 if tier == "quick" else 4), "--elem", "wide", shards=8),
+        J("rel", "nonint", "--n", ns(0, 3 if tier == "quick" else 5), "--elem", "nodrop", count_distinct=False),
     ],
     "require_counters": ["traces_compared", "garbage_bytes_poked"],
     "assumptions": COMMON_ASSUME + ["a stray read whose value can never influence any result is only visible to Miri/memcheck (typed read of uninitialised memory)"],
@@ -185,7 +195,7 @@ PROPS["C08"] = {
     "exhaustive_scope": "complete for the capacities listed in the jobs, scripts up to selected length + 2",
     "jobs": lambda tier: [
         J("dbg", "iters", "--n", ns(0, 5 if tier == "quick" else 7)),
-        J("rel", "iters", "--n", ns(0, 5 if tier == "quick" else 7), count_distinct=False),
+        J("rel", "iters", "--n", ns(0, 6 if tier == "quick" else 8), count_distinct=False),
     ],
     "require_counters": ["iter_steps"],
     "assumptions": COMMON_ASSUME,
@@ -201,6 +211,7 @@ PROPS["C09"] = {
     "jobs": lambda tier: [
         J("dbg", "drain", "--n", ns(0, 5 if tier == "quick" else 8), *(["--maxscript", "6"] if tier == "thorough" else [])),
         J("rel", "drain", "--n", ns(0, 5 if tier == "quick" else 8), *(["--maxscript", "6"] if tier == "thorough" else []), count_distinct=False),
+        J("rel", "drain", "--n", ns(0, 4 if tier == "quick" else 6), "--elem", "nodrop"),
     ],
     "require_counters": ["ops_executed", "conservation_checks"],
     "assumptions": COMMON_ASSUME,
@@ -214,6 +225,8 @@ PROPS["C10"] = {
     "jobs": lambda tier: [
         J("dbg", "drain", "--forget", "1", "--n", ns(0, 5 if tier == "quick" else 7), *(["--maxscript", "6"] if tier == "thorough" else [])),
         J("rel", "drain", "--forget", "1", "--n", ns(0, 5 if tier == "quick" else 7), *(["--maxscript", "6"] if tier == "thorough" else []), count_distinct=False),
+        J("dbg", "drain", "--forget", "1", "--n", ns(0, 4 if tier == "quick" else 6), "--elem", "nodrop"),
+        J("rel", "drain", "--forget", "1", "--n", ns(0, 4 if tier == "quick" else 6), "--elem", "nodrop", count_distinct=False),
     ],
     "require_counters": ["drains_leaked"],
     "assumptions": COMMON_ASSUME,
@@ -225,8 +238,10 @@ PROPS["C12"] = {
     "exhaustive": True,
     "exhaustive_scope": "complete for the capacities listed in the jobs",
     "jobs": lambda tier: [
-        J("dbg", "ctor", "--n", ns(0, 5 if tier == "quick" else 8)),
-        J("rel", "ctor", "--n", ns(0, 5 if tier == "quick" else 8), count_distinct=False),
+        J("dbg", "ctor", "--n", ns(0, 6 if tier == "quick" else 10)),
+        J("rel", "ctor", "--n", ns(0, 6 if tier == "quick" else 10), count_distinct=False),
+        J("dbg", "ctor", "--n", ns(0, 5 if tier == "quick" else 8), "--elem", "nodrop"),
+        J("rel", "ctor", "--n", ns(0, 5 if tier == "quick" else 8), "--elem", "nodrop", count_distinct=False),
     ] + ([J("dbg", "sweep", "--n", ns(0, 3), count_distinct=False)] if tier == "quick" else [J("dbg", "sweep", "--n", ns(0, 5), "--thorough", count_distinct=False)]),
     "require_counters": ["ops_executed", "teardowns"],
     "assumptions": COMMON_ASSUME,
@@ -238,8 +253,8 @@ PROPS["C13"] = {
     "exhaustive": True,
     "exhaustive_scope": "complete for capacities 0..=top and the alphabet stated in the job (2 symbols quick, 3 thorough)",
     "jobs": lambda tier: [
-        J("dbg", "cmp", "--n", 4 if tier == "quick" else 6, *th(tier)),
-        J("rel", "cmp", "--n", 4 if tier == "quick" else 6, *th(tier), count_distinct=False),
+        J("dbg", "cmp", "--n", 5 if tier == "quick" else 6, *th(tier)),
+        J("rel", "cmp", "--n", 5 if tier == "quick" else 6, *th(tier), count_distinct=False),
     ],
     "require_counters": ["pairs_compared", "hash_pairs"],
     "assumptions": COMMON_ASSUME,
